@@ -259,8 +259,79 @@ type runner struct {
 	dirtyFailedOp   bool // an operation returned an error and its own Update was rolled back
 	addrKey         [4]map[string]string
 	unlockedBefore  bool
+	// C08 attribution: which operation touched which cached item inside the current bracket / inside brackets that did
+	// not commit since the manager was opened.  id = "addr:<sc>/<key>", "name:<sc>/<acct>", "idx:<sc>/<acct>",
+	// "acct:<sc>/<acct>", "synced".
+	txTouch []touch
+	stale   map[string][]blame
+
 	nextUnlockedTx  bool // an open bracket contains a NextAddresses call made while unlocked
 	f13             bool // … and the manager was locked when that bracket committed (finding F13)
+}
+
+type touch struct{ id, op string }
+type blame struct{ op, pre string }
+
+func (r *runner) touch(id, op string) { r.txTouch = append(r.txTouch, touch{id, op}) }
+
+// settle is called when a bracket ends: touches of a bracket that did not commit become blame entries; in a
+// committed bracket only the shape "NextAddresses followed by ExtendAddresses on the same account" is recorded.
+func (r *runner) settle(pre string) {
+	if r.stale == nil {
+		r.stale = map[string][]blame{}
+	}
+	if pre == "committed" {
+		nexted := map[string]bool{}
+		for _, t := range r.txTouch {
+			if !strings.HasPrefix(t.id, "idx:") {
+				continue
+			}
+			if t.op == "NextAddresses" {
+				nexted[t.id] = true
+			}
+			if t.op == "ExtendAddresses" && nexted[t.id] {
+				r.stale[t.id] = append(r.stale[t.id], blame{"NextThenExtend", "committed"})
+			}
+		}
+	} else {
+		for _, t := range r.txTouch {
+			r.stale[t.id] = append(r.stale[t.id], blame{t.op, pre})
+		}
+	}
+	r.txTouch = nil
+}
+
+// blameFor names the call site responsible for a difference on item id. Known eager mutators win over others, so
+// that a NEW call site (not in known-findings) is only hidden when a known one touched the very same item.
+func (r *runner) blameFor(id string) string {
+	bs := r.stale[id]
+	if len(bs) == 0 {
+		pre := "committed"
+		if r.dirty {
+			pre = "rollback"
+		} else if r.dirtyFailedOp {
+			pre = "failed-op"
+		}
+		return "Unattributed." + pre
+	}
+	// an operation that failed normally returned before touching memory: prefer a bracket that ran and was rolled back
+	rank := func(b blame) int {
+		n := 0
+		if b.pre != "failed-op" {
+			n += 2
+		}
+		if b.op != "NextAddresses" {
+			n++
+		}
+		return n
+	}
+	best := bs[0]
+	for _, b := range bs {
+		if rank(b) > rank(best) {
+			best = b
+		}
+	}
+	return best.op + "." + best.pre
 }
 
 type engine struct{}
@@ -318,8 +389,10 @@ func (r *runner) update(f func(ns walletdb.ReadWriteBucket) error) error {
 		r.endBracket(false)
 		r.dirty = wasDirty
 		r.dirtyFailedOp = true
+		r.settle("failed-op")
 	} else {
 		r.endBracket(true)
+		r.settle("committed")
 	}
 	return err
 }
@@ -519,7 +592,7 @@ func (r *runner) Exec(op string) (string, string) {
 func (r *runner) create(kv map[string]string) (string, string) {
 	r.Close()
 	*r = runner{}
-	for _, k := range []string{"pub", "priv", "f1", "f2", "f2b", "f3", "f11", "f12", "hl"} {
+	for _, k := range []string{"pub", "priv", "f1", "f2", "f2b", "f3", "f11", "f12", "hl", "f13", "fo1"} {
 		if _, ok := kv[k]; !ok {
 			return "bad-op", ""
 		}
@@ -585,6 +658,8 @@ func (r *runner) reopen(kv map[string]string) (string, string) {
 	r.mgr = m
 	r.f13 = false
 	r.dirtyFailedOp = false
+	r.stale = nil
+	r.txTouch = nil
 	r.dirty = false
 	r.privUncertain = false
 	r.unlockedBefore = false
@@ -616,6 +691,7 @@ func (r *runner) exec(cmd string, kv map[string]string) (reply, viol string) {
 			return "err db", ""
 		}
 		r.tx = tx
+		r.txTouch = nil
 		r.snapPriv = r.curPriv
 		r.chpassInTx = false
 		r.nextUnlockedTx = false
@@ -635,14 +711,17 @@ func (r *runner) exec(cmd string, kv map[string]string) (reply, viol string) {
 				r.f13 = true
 			}
 			r.endBracket(true)
+			r.settle("committed")
 		case "rollback":
 			_ = tx.Rollback()
 			r.endBracket(false)
+			r.settle("rollback")
 		case "commitfail":
 			if err := (failTx{tx}).Commit(); err == nil {
 				return "err db", ""
 			}
 			r.endBracket(false)
+			r.settle("rollback")
 		}
 		return "ok", ""
 	case "bufs":
@@ -696,6 +775,7 @@ func (r *runner) exec(cmd string, kv map[string]string) (reply, viol string) {
 				skipped = true
 				return nil
 			}
+			r.touch(fmt.Sprintf("acct:%d/%d", sc, int(last)+1), "NewAccount")
 			if wo {
 				acct, err = s.NewAccountWatchingOnly(ns, kv["name"], acctXpub(sc, int(last)+1), 0, nil)
 			} else {
@@ -718,6 +798,7 @@ func (r *runner) exec(cmd string, kv map[string]string) (reply, viol string) {
 		if err != nil {
 			return "err scopenotfound", ""
 		}
+		r.touch(fmt.Sprintf("name:%d/%s", sc, kv["acct"]), "RenameAccount")
 		err = r.update(func(ns walletdb.ReadWriteBucket) error {
 			return s.RenameAccount(ns, uint32(atoi(kv["acct"])), kv["name"])
 		})
@@ -744,8 +825,10 @@ func (r *runner) exec(cmd string, kv map[string]string) (reply, viol string) {
 		if internal {
 			br = 1
 		}
+		r.touch(fmt.Sprintf("idx:%d/%d", sc, acct), "ExtendAddresses")
 		for i := 0; i <= last && i < 64; i++ {
 			r.learn(sc, fmt.Sprintf("c:%d:%d:%d", acct, br, i))
+			r.touch(fmt.Sprintf("addr:%d/c:%d:%d:%d", sc, acct, br, i), "ExtendAddresses")
 		}
 		err = r.update(func(ns walletdb.ReadWriteBucket) error {
 			if internal {
@@ -761,6 +844,7 @@ func (r *runner) exec(cmd string, kv map[string]string) (reply, viol string) {
 		}
 		k, priv := atoi(kv["k"]), kv["priv"] == "1"
 		r.learn(sc, fmt.Sprintf("i:%d", k))
+		r.touch(fmt.Sprintf("addr:%d/i:%d", sc, k), map[bool]string{true: "ImportPrivateKey", false: "ImportPublicKey"}[priv])
 		err = r.update(func(ns walletdb.ReadWriteBucket) error {
 			bs := &waddrmgr.BlockStamp{Height: 0}
 			if priv {
@@ -793,6 +877,7 @@ func (r *runner) exec(cmd string, kv map[string]string) (reply, viol string) {
 			secret = true
 		}
 		scriptAddr := r.learn(sc, fmt.Sprintf("s:%d:%d", kind, sid))
+		r.touch(fmt.Sprintf("addr:%d/s:%d:%d", sc, kind, sid), "ImportScript")
 		err = r.update(func(ns walletdb.ReadWriteBucket) error {
 			bs := &waddrmgr.BlockStamp{Height: 0}
 			var err error
@@ -828,6 +913,7 @@ func (r *runner) exec(cmd string, kv map[string]string) (reply, viol string) {
 		return e(err), ""
 	case "setsynced":
 		h, x := atoi(kv["h"]), atoi(kv["hash"])
+		r.touch("synced", "SetSyncedTo")
 		err := r.update(func(ns walletdb.ReadWriteBucket) error {
 			return m.SetSyncedTo(ns, &waddrmgr.BlockStamp{Height: int32(h), Hash: hashOf(x), Timestamp: time.Unix(1700000000, 0)})
 		})
@@ -1063,12 +1149,16 @@ func (r *runner) next(sc, acct, n int, internal bool) ([]string, error) {
 		return nil, waddrmgr.ManagerError{ErrorCode: waddrmgr.ErrScopeNotFound}
 	}
 	var mas []waddrmgr.ManagedAddress
+	r.touch(fmt.Sprintf("idx:%d/%d", sc, acct), "NextAddresses")
 	err = r.update(func(ns walletdb.ReadWriteBucket) error {
 		var err error
 		if internal {
 			mas, err = s.NextInternalAddresses(ns, uint32(acct), uint32(n))
 		} else {
 			mas, err = s.NextExternalAddresses(ns, uint32(acct), uint32(n))
+		}
+		for _, k := range r.keysOf(sc, mas) {
+			r.touch(fmt.Sprintf("addr:%d/%s", sc, k), "NextAddresses")
 		}
 		return err
 	})
@@ -1269,18 +1359,35 @@ func (r *runner) cmpq(kv map[string]string) (string, string) {
 				}
 			case "q.last":
 				class = "last-address-differs"
+				if strings.Contains(a1, "accountnotfound") != strings.Contains(a2, "accountnotfound") {
+					class = "account-cache-not-reverted"
+				}
 			case "q.used":
 				class = "used-flag-differs"
 			case "q.synced":
 				class = "synced-to-not-reverted"
 			}
-			pre := "committed"
-			if r.dirty {
-				pre = "rollback"
-			} else if r.dirtyFailedOp {
-				pre = "failed-op"
+			item := ""
+			switch class {
+			case "address-cache-not-reverted", "used-flag-differs":
+				item = "addr:" + q.kv["sc"] + "/" + q.kv["key"]
+			case "account-name-cache-not-reverted":
+				item = "name:" + q.kv["sc"] + "/" + q.kv["acct"]
+			case "next-index-differs", "last-address-differs":
+				item = "idx:" + q.kv["sc"] + "/" + q.kv["acct"]
+			case "account-cache-not-reverted":
+				item = "acct:" + q.kv["sc"] + "/" + q.kv["acct"]
+			case "synced-to-not-reverted":
+				item = "synced"
 			}
-			key := pre + "." + class
+			// an account that only exists in the cache (created in a bracket that did not commit) explains name /
+			// index differences of that account number too
+			if _, ok := r.stale[item]; !ok && q.kv["acct"] != "" {
+				if alt := "acct:" + q.kv["sc"] + "/" + q.kv["acct"]; len(r.stale[alt]) > 0 {
+					item = alt
+				}
+			}
+			key := r.blameFor(item) + "." + class
 			if !seen[key] {
 				seen[key] = true
 				viols = append(viols, fmt.Sprintf("C08 key=%s: %s answers %q on the running manager and %q on a freshly opened one",
@@ -1341,12 +1448,7 @@ func (r *runner) nextcmp(sc, acct int, internal bool) (string, string) {
 	}
 	viol := ""
 	if run != fresh {
-		pre := "committed"
-		if r.dirty {
-			pre = "rollback"
-		} else if r.dirtyFailedOp {
-			pre = "failed-op"
-		}
+		pre := r.blameFor(fmt.Sprintf("idx:%d/%d", sc, acct))
 		viol = fmt.Sprintf("C08 key=%s.next-address-differs-from-restart: running manager issued %q, a restarted one would issue %q", pre, run, fresh)
 	}
 	return fmt.Sprintf("run=%s fresh=%s", run, fresh), viol
